@@ -210,6 +210,22 @@ func checkC09(e *Engine, r *Report) {
 			r.Undecided("R1:bl-release", "R1 release pairing", "ReleaseResources looks the balloon up once", e.Pos(blRelease.Pos()), blRelease, fmt.Sprintf("%d lookups", len(bc)))
 		}
 	}
+	if blRelease != nil {
+		// memory is released whether or not the container (still) belongs to a balloon: a configuration update rebuilds all
+		// balloons while the memory allocator and its requests survive
+		lmRelease := e.Fn(pkgLM, "Allocator.Release")
+		r.MustPass("R1:bl-release->mem-release", "R1 release pairing", "every normal return of the balloons ReleaseResources has released the container's libmem allocation (through dismissContainer, or directly for a container without a balloon)", blRelease, nil, e.maySucceed,
+			func(in ssa.Instruction) bool { return e.CallReaches(in, fset(lmRelease), 3) },
+			func(cond ssa.Value) (bool, bool) {
+				// `_, ok := memAllocator.AssignedZone(id)`: nothing to release when the allocator does not know the container
+				if ex, ok := cond.(*ssa.Extract); ok && ex.Index == 1 {
+					if c, ok := ex.Tuple.(*ssa.Call); ok && callObj(c.Common()) != nil && callObj(c.Common()).Name() == "AssignedZone" {
+						return true, true
+					}
+				}
+				return false, false
+			})
+	}
 	if dismiss != nil {
 		lmRelease := e.Fn(pkgLM, "Allocator.Release")
 		updGroups := e.Fn(pkgBL, "Balloon.updateGroups")
